@@ -84,11 +84,14 @@ def encodeYd (L : EncLayer) (seq : Nat) (m : MsgIn) : Res (Nat × List (List Cha
   | .raised => .raised
   | .unmodelled => .unmodelled
 
-/-- `encode_actisense`: the whole payload in one line; no range checks, no sequence counter -/
+/-- `encode_actisense`: the same addressing checks as the other formats (`_check_header`), then the whole payload in one
+line; no sequence counter -/
 def encodeActisense (L : EncLayer) (m : MsgIn) : Res (List Char) :=
-  match callEncode L m with
-  | .ok b => .ok (Wire.encodeActisense m.prio m.dst m.src m.pgn b)
-  | .raised => .raised
-  | .unmodelled => .unmodelled
+  if 7 < m.prio ∨ 255 < m.src ∨ 0x3FFFF < m.pgn ∨ 255 < m.dst then .raised
+  else
+    match callEncode L m with
+    | .ok b => .ok (Wire.encodeActisense m.prio m.dst m.src m.pgn b)
+    | .raised => .raised
+    | .unmodelled => .unmodelled
 
 end N2k.Enc
